@@ -430,6 +430,9 @@ def replay(rp):
             singles = {i: run_multi(root, (ext, False, (i,), [], "."))[1] for i in set(seq)}
             rc, out, err = run_multi(root, (ext, allm, seq, [], "."))
             return rc == 0 and out == b"".join(singles[i] for i in seq)
+        if rp.get("kind") == "junk":
+            rc, out, err = run_junk(root, tuple(rp["job"]))
+            return junk_oracle(rc, out, err) is None
         if rp.get("kind") == "sink":
             case = [c for c in sink_cases() if c[0] == rp["case"]][0]
             return sink_oracle(run_sink_case(root, case, None), run_sink_case(root, case, rp["sink"])) is None
@@ -477,6 +480,51 @@ def run_multi(root, job):
         return yq((["ea"] if allm else []) + flags + ["-o=json", "-I=0", expr] + ["f%d.%s" % (i, ext) for i in seq], d)
     finally:
         shutil.rmtree(d, ignore_errors=True)
+
+
+# ---------------------------------------------------------------------------
+# (E) inputs whose tail is garbage after a complete value, followed by more content carrying the token zqT:
+#     either the run fails (non-zero, message) or the content after the junk is in the output -- never silently dropped
+JUNK_INPUTS = {
+    "json": dict(prefixes=['{"a":"zq1"}', '[1,2]', '"zq1"', ''], junk=["]", "}", "]]", "}\n", "\x00", " x ", ",", ":", "\"", "]}", "}]\n\n"],
+                 suffix='{"t":"zqT"}\n'),
+    "yml": dict(prefixes=["a: zq1\n", "- zq1\n"], junk=["]\n", "}\n", "\t- x\n", "\x00\n", "a: [\n", "'\n"], suffix="---\nt: zqT\n"),
+    "xml": dict(prefixes=["<a>zq1</a>"], junk=["</b>", "<", "</a>", "\x00", "<b>"], suffix="<t>zqT</t>\n"),
+    "toml": dict(prefixes=['a = "zq1"\n'], junk=["]\n", "}\n", "= 3\n", "\x00\n", "[[\n", '"\n'], suffix='t = "zqT"\n'),
+    "csv": dict(prefixes=["h,t\nzq1,x\n"], junk=['"\n', 'a"b,\n', "1,2,3\n", "\x00"], suffix="zq2,zqT\n"),
+    "lua": dict(prefixes=['return {a="zq1"'], junk=["]", "}}", "\x00", ")"], suffix=', t="zqT"}\n'),
+    "properties": dict(prefixes=["a = zq1\n"], junk=["\\u00zz\n", "\x00\n"], suffix="t = zqT\n"),
+}
+
+
+def junk_jobs(thorough):
+    jobs = []
+    for ext, d in JUNK_INPUTS.items():
+        for pi, pre in enumerate(d["prefixes"]):
+            for ji, j in enumerate(d["junk"]):
+                for allm in (False, True):
+                    for pos in ((0, 1, 2) if thorough or ext == "json" else (0,)):   # the junk file alone / first / second of two
+                        jobs.append((ext, pi, ji, allm, pos))
+    return jobs
+
+
+def run_junk(root, job):
+    ext, pi, ji, allm, pos = job
+    d = JUNK_INPUTS[ext]
+    dd = sandbox(root)
+    try:
+        open(os.path.join(dd, "junk." + ext), "w").write(d["prefixes"][pi] + d["junk"][ji] + d["suffix"])
+        open(os.path.join(dd, "good." + ext), "w").write((d["prefixes"][0] if ext != "lua" else 'return {a="zq1"}') + ("\n" if ext in ("json", "xml") else "") if ext != "lua" else 'return {a="zq1"}\n')
+        files = {0: ["junk." + ext], 1: ["junk." + ext, "good." + ext], 2: ["good." + ext, "junk." + ext]}[pos]
+        return yq((["ea"] if allm else []) + ["-o=json", "-I=0", "."] + files, dd)
+    finally:
+        shutil.rmtree(dd, ignore_errors=True)
+
+
+def junk_oracle(rc, out, err):
+    if rc == 0:
+        return None if b"zqT" in out else "exit 0 and nothing on stderr although the input has junk after a complete value; everything after the junk is silently dropped"
+    return None if err.strip() else "exit %d without a message on stderr" % rc
 
 
 def sink_cases():
@@ -667,6 +715,23 @@ def run(chk):
                 disagreements.append(("several input files", repr(mjob_idx[i]), cases[i][1], list(mo)))
         chk.extra["multi_file_runs"] = len(mjobs)
 
+        # ---------------- (E) junk after a complete value ----------------
+        jjobs = junk_jobs(thorough)
+        jobs_obs = list(pool.map(lambda j: run_junk(root, j), jjobs))
+        jdist = {"error": 0, "accepted_with_tail": 0}
+        for job, (rc, out, err) in zip(jjobs, jobs_obs):
+            ext, pi, ji, allm, pos = job
+            chk.count(("junk",) + job, nontrivial=True)
+            jdist["error" if rc != 0 else "accepted_with_tail"] += 1
+            why = junk_oracle(rc, out, err)
+            if why:
+                d = JUNK_INPUTS[ext]
+                report({"kind": "junk", "job": list(job), "input": d["prefixes"][pi] + d["junk"][ji] + d["suffix"], "rc": rc,
+                        "stdout": out.decode("utf-8", "replace")[:200]}, "junk-tail-" + ext,
+                       "%s :: yq %s-o=json -I=0 . <%s> with input %r" % (why, "ea " if allm else "", {0: "junk", 1: "junk good", 2: "good junk"}[pos],
+                                                                        d["prefixes"][pi] + d["junk"][ji] + d["suffix"]))
+        chk.extra["junk_tail_runs"] = dict(jdist, total=len(jjobs))
+
         # ---------------- -e spelling (direct) ----------------
         for doc, want in (("a: false\n", 1), ("a: False\n", 1), ("a: FALSE\n", 1), ("a: null\n", 1), ("a: ~\n", 1), ("a: 0\n", 0), ("a: \"false\"\n", 0), ("b: 1\n", 1)):
             d = sandbox(root)
@@ -758,7 +823,9 @@ def run(chk):
              "(/dev/full, read-only descriptor), plus fixed cases below and above the 4096-byte buffer, failure on the last / a non-last result: a failed write => "
              "non-zero exit and a message on stderr. (D) for every input format with a decoder (yaml, json, props, csv, tsv, xml, toml, lua, base64, uri) one, two and "
              "three input files (also the same file twice, both orders) in eval and eval-all: the output must be the concatenation of the single-file runs, "
-             "and -e must see a match that lives in the second file. Non-trivial: container kinds / multi-file or multi-document runs."
+             "and -e must see a match that lives in the second file. (E) inputs (json, yaml, xml, toml, csv, lua, props) with junk after a complete value "
+             "(stray closing brackets, stray tokens, NUL, unterminated quotes) followed by more content, alone / first / second file, eval and eval-all: "
+             "non-zero exit with a message, or the content after the junk is on stdout. Non-trivial: container kinds / multi-file or multi-document runs."
              % (len(FILENAMES), len(KINDS), len(FORMATS)),
         trusted=vlib.COMMON_TRUSTED + [
             "Spec/CliSpec.v (hand-written: expected results of a complete run, -e rule)",
